@@ -241,7 +241,14 @@ def stop_tie(ctx):
 
 # ----------------------------------------------------------------------------- event traces of the real solver
 WRAPPED = ["mps_standard_mpsolve", "mps_check_data", "mps_fsolve", "mps_dsolve", "mps_msolve", "mps_check_stop", "mps_fmodify", "mps_dmodify",
-           "mps_mmodify", "mps_inclusion", "mps_improve", "mps_thread_pool_wait", "mps_copy_roots"]
+           "mps_mmodify", "mps_inclusion", "mps_improve", "mps_thread_pool_wait", "mps_copy_roots",
+           "mps_context_has_errors", "mps_secular_ga_mpsolve", "mps_polynomial_fstart", "mps_polynomial_dstart", "mps_cluster_analysis",
+           "mps_secular_fstart", "mps_secular_dstart", "mps_secular_mstart", "mps_secular_switch_phase", "mps_secular_raise_precision",
+           "mps_secular_restart", "mps_validate_inclusions", "mps_mupdate_inclusions", "mps_secular_ga_regenerate_coefficients",
+           "mps_secular_ga_fiterate", "mps_secular_ga_diterate", "mps_secular_ga_miterate", "mps_faberth_packet", "mps_daberth_packet", "mps_maberth_packet"]
+# mps_secular_ga_check_stop is called inside its own translation unit: a copy of the snapshot's secular-ga.c is compiled into the
+# harness with -finstrument-functions (it replaces the archive member); the exit hook of harness/c02_wrap.c prints the call
+INSTR = "-finstrument-functions -finstrument-functions-exclude-file-list=vf_solve.c,c02_wrap.c,/usr/ -fno-inline"
 
 
 def run_traced(binary, jobs, workdir, env, timeout, workers):
@@ -284,6 +291,7 @@ def _fmt_roots(rs): return "%d %s" % (len(rs), " ".join("%d %d %d" % r for r in 
 
 
 BAND = Fr(1, 1 << 40)
+TRACE_CAP = 6000
 
 
 def parse_mod(ev, prec_out, stats):
@@ -387,19 +395,168 @@ def std_line(events, stats):
     return "%s %d %s" % (cfg, len(evs), " ".join(evs)), obs, mlines, ilines
 
 
+def aux_lines(events, prec_out, stats):
+    """the modify and improve calls of a trace (any driver) as `M` / `I` lines with what the real call left behind"""
+    mlines = []; ilines = []; imp = None; rounds = None
+    for ev in events:
+        t = ev.split(); tag = t[0]
+        if tag == "MOD":
+            m = parse_mod(ev, prec_out, stats)
+            mlines.append(("M %s %d %s %d %s %d %s" % (m["v"], m["track"], _fmt_cls(m["cls"]), len(m["w"]), " ".join("1" if x else "0" for x in m["w"]),
+                                                        len(m["before"]), " ".join(str(r[0]) for r in m["before"])), [r[0] for r in m["after"]]))
+        elif tag == "IMP_BEGIN":
+            rs, _ = _roots(t, 6); imp = {"hdr": t[1:6], "roots": rs}; rounds = []
+        elif tag == "IMP_ROUND" and rounds is not None:
+            n = int(t[1]); rounds.append([x.split(":")[2] for x in t[2:2 + n]])
+        elif tag == "IMP_END" and imp is not None:
+            rs, _ = _roots(t, 2); imp["rounds"] = rounds; imp["over"] = t[1]; imp["after"] = rs
+            rtxt = "%d %s" % (len(rounds), " ".join("%d %s" % (len(r), " ".join(r)) for r in rounds)) if rounds else "0"
+            ilines.append(("I %s %s %s %s %s %s" % (imp["hdr"][0], imp["hdr"][1], imp["hdr"][2], imp["hdr"][3], rtxt, _fmt_roots(imp["roots"])), imp))
+            imp = None; rounds = None
+    return mlines, ilines
+
+
+def sec_line(events):
+    """the secular driver's events of one solve -> (`G` line for bin/stopq, observed dict) or None.
+    Real calls map 1:1 to model events; the reads of s->exit_required (never set in these runs: checked at every hook)
+    are inserted at the places the C text has them; really_need_dpe is read off the phase of the next call."""
+    if not events or not events[0].startswith("SEC_BEGIN"): return None
+    b = events[0].split()
+    goal = "iac"[int(b[1])]; secin, start, crude, avoid = b[2], b[3], b[4] == "1", b[5] == "1"
+    cfg = "G %s %s %s %s %s %s %s %s %s" % (goal, secin, start, b[4], b[5], b[6], b[7], b[8], b[9])
+    KEEP = ("CD", "START", "PACKET", "ERRQ", "SSTOP", "REGEN", "SWITCH", "RAISE", "VALIDATE", "IMP_BEGIN", "IMP_ROUND", "IMP_END", "COPY", "SEC_END")
+    E = [e.split() for e in events[1:] if e.split()[0] in KEEP]
+    evs = []; obs = {"stops": [], "exit_required_seen": False, "copy": None, "end": None, "imp": None, "phase": None}
+    i = 0
+    def peek(k=0): return E[i + k][0] if i + k < len(E) else None
+    def stop_ev(t):
+        n = int(t[4]); sts = t[5:5 + n]
+        obs["stops"].append((t[1], t[2], t[3], sts))
+        if t[2] == "1": obs["exit_required_seen"] = True
+        return "SP %s %d %s" % (t[2], n, " ".join(sts))
+    def cleanup():
+        nonlocal i
+        if peek() == "ERRQ":
+            evs.append("ER " + E[i][1]); err = E[i][1] == "1"; obs["phase"] = E[i][2]; i += 1
+            if err: return
+            if peek() == "VALIDATE":
+                n = int(E[i][1]); evs.append("VA %d %s" % (n, " ".join(E[i][2:2 + n]))); i += 1
+            if peek() == "COPY":
+                t = E[i]; obs["copy"] = t; i += 1
+                evs.append("XR 0")
+            if peek() == "IMP_BEGIN":
+                t = E[i]; i += 1; n = int(t[6]); roots = [x.split(":") for x in t[7:7 + n]]; rounds = []
+                while peek() == "IMP_ROUND":
+                    r = E[i]; m = int(r[1]); rounds.append([x.split(":")[2] for x in r[2:2 + m]]); i += 1
+                after = None
+                if peek() == "IMP_END":
+                    r = E[i]; m = int(r[2]); after = [x.split(":")[0] for x in r[3:3 + m]]; obs["imp"] = {"over": r[1], "after": after, "rounds": len(rounds)}; i += 1
+                rtxt = "%d %s" % (len(rounds), " ".join("%d %s" % (len(r), " ".join(r)) for r in rounds)) if rounds else "0"
+                evs.append("IM %s %s %d %s" % (t[4], rtxt, n, " ".join("%s %s %s" % tuple(x) for x in roots)))
+    def done():
+        for t in E:
+            if t[0] == "SEC_END": obs["end"] = t
+        return "%s %d %s" % (cfg, len(evs), " ".join(evs)), obs
+    # ---- preliminary part (polynomial input)
+    if secin == "0":
+        if start == "0":
+            if peek() != "CD": return done()
+            evs.append("CD %d %s" % (1 - int(E[i][1]), E[i][2])); i += 1
+            if evs[-1].endswith(" 1"): return done()
+        regen_seen = False
+        while True:
+            if peek() != "START": return done()
+            kind = E[i][1]; i += 1
+            if peek() != "ERRQ": return done()
+            evs.append("ST " + E[i][1]); e1 = E[i][1] == "1"; i += 1
+            if e1: cleanup(); return done()
+            if peek() == "PACKET": i += 1                       # the preliminary Aberth packet (payload)
+            if kind == "f":
+                if peek() == "START": evs.append("FP 1"); continue
+                evs.append("FP 0")
+            break
+        if peek() != "ERRQ": return done()
+        evs.append("ER " + E[i][1]); e = E[i][1] == "1"; i += 1
+        if e or crude: cleanup(); return done()
+        if peek() != "SSTOP": return done()
+        t = E[i]; evs.append(stop_ev(t)); i += 1
+        if t[1] == "1": cleanup(); return done()
+        if t[3] == "2":                                        # DPE: really_need_dpe, seen in the phase the regeneration runs in
+            nd = "1"
+            if peek() == "REGEN": nd = "1" if E[i][2] == "2" else "0"
+            evs.append("ND " + nd)
+        if peek() != "REGEN": return done()
+        ok = E[i][1]; ph = E[i][2]; evs.append("RG " + ok); i += 1
+        if ok == "0":
+            if peek() == "REGEN":
+                evs.append("RG " + E[i][1]); ok2 = E[i][1]; i += 1
+                if ok2 == "0": return done()
+            else: return done()
+    # ---- sec_main
+    if peek() != "ERRQ": return done()
+    evs.append("ER " + E[i][1]); e = E[i][1] == "1"; i += 1
+    if e: cleanup(); return done()
+    evs.append("XR 0")
+    # ---- the loop
+    while peek() == "PACKET":
+        t = E[i]; i += 1; evs.append("IT %s %s" % (t[2], t[3])); best = t[3]; jr = t[6]
+        if t[1] in ("sf", "jf") and t[2] == "1" and peek() == "PACKET":
+            t = E[i]; i += 1; evs.append("IT %s %s" % (t[2], t[3])); best = t[3]
+        evs.append("XR 0")
+        if peek() is None or peek() == "SEC_END": return done()           # packet > max_pack
+        if peek() == "SSTOP" and jr == "0":
+            t = E[i]; evs.append(stop_ev(t)); i += 1
+            if t[1] == "1": cleanup(); return done()
+        if peek() == "ERRQ": cleanup(); return done()                      # avoid_multiprecision && best_approx
+        if best == "1" and peek() in ("SWITCH", "RAISE"):
+            i += 1; evs.append("XR 0")
+            if peek() != "REGEN": return done()
+            evs.append("RG " + E[i][1]); i += 1; evs.append("XR 0")
+        evs.append("XR 0")
+        if peek() != "REGEN": return done()
+        ok = E[i][1]; evs.append("RG " + ok); i += 1
+        if ok == "0":
+            if peek() == "RAISE":
+                i += 1
+                if peek() == "REGEN": evs.append("RG " + E[i][1]); i += 1
+            elif peek() == "SWITCH": i += 1
+        evs.append("XR 0")
+        if peek() != "SSTOP": return done()
+        t = E[i]; evs.append(stop_ev(t)); i += 1
+        if t[1] == "1": cleanup(); return done()
+    return done()
+
+
 def trace_tie(ctx, recs):
     """replay every solve's event trace through the extracted acceptors (std_run, modify_roots, improve)"""
-    stats = collections.Counter(); dl = []; ml = []; il = []
+    stats = collections.Counter(); dl = []; ml = []; il = []; gl = []; sl = []; sseen = set()
     for rec in recs:
         r = rec["res"]; evs = getattr(r, "events", None) or []
         rec["silent"] = False
         if not evs: continue
+        if len(evs) > TRACE_CAP:
+            stats["trace:longer than %d events (not replayed)" % TRACE_CAP] += 1; continue
         try:
             out = std_line(evs, stats)
         except Exception as e:
             stats["trace-unparsed"] += 1; rec["trace_error"] = repr(e)[:200]; continue
         if out is None:
-            stats["trace:not-the-classic-driver"] += 1; continue
+            try:
+                so = sec_line(evs)
+                if so is not None:
+                    prec_out = int(evs[0].split()[10])
+                    mlines, ilines = aux_lines(evs, prec_out, stats)
+                    gl.append((rec, so[0], so[1]))
+                    for m in mlines: ml.append((rec, m[0], m[1]))
+                    for i in ilines: il.append((rec, i[0], i[1]))
+                    for sres, sex, sph, ssts in so[1]["stops"]:
+                        sline = "S %s %s %d %s" % (sex, sph, len(ssts), " ".join(ssts))
+                        stats["secular stop tests seen in traces"] += 1
+                        if (sline, sres) not in sseen: sseen.add((sline, sres)); sl.append((rec, sline, sres))
+                else: stats["trace:no-driver-events"] += 1
+            except Exception as e:
+                stats["trace-unparsed"] += 1; rec["trace_error"] = repr(e)[:200]
+            continue
         line, obs, mlines, ilines = out
         dl.append((rec, line, obs))
         for m in mlines: ml.append((rec, m[0], m[1]))
@@ -407,8 +564,29 @@ def trace_tie(ctx, recs):
     douts = ctx.run_model_lines("stopq", [x[1] for x in dl], workers=4) if dl else []
     mouts = ctx.run_model_lines("stopq", [x[1] for x in ml], workers=4) if ml else []
     iouts = ctx.run_model_lines("stopq", [x[1] for x in il], workers=4) if il else []
+    gouts = ctx.run_model_lines("stopq", [x[1] for x in gl], workers=4) if gl else []
+    souts = ctx.run_model_lines("stopq", [x[1] for x in sl], workers=4) if sl else []
     broken = []          # (what, rec, detail)
-    exits = collections.Counter(); sameop = collections.Counter()
+    exits = collections.Counter(); sameop = collections.Counter(); gexits = collections.Counter()
+    for (rec, line, want), o in zip(sl, souts):
+        if o.strip() != want: broken.append(("secular:mps_secular_ga_check_stop answered %s, model %s" % (want, o.strip()), rec, line[:300]))
+    for (rec, line, obs), o in zip(gl, gouts):
+        t = o.split()
+        if obs["exit_required_seen"]: gexits["exit_required was set (not compared)"] += 1; continue
+        if t[0] != "OK":
+            broken.append(("secular:event order not accepted by sec_run (%s)" % o[:40], rec, line[:500])); gexits["rejected"] += 1; continue
+        ex, why, ph, fin = t[1], t[2], t[3], t[4]
+        gexits[ex + ":" + why.split(":")[0]] += 1
+        copied = obs["copy"] is not None
+        if copied != (ex in ("done", "exitaftercopy")): broken.append(("secular:roots copied = %s but model exit %s" % (copied, ex), rec, line[:500]))
+        if obs["phase"] is not None and ex == "done" and obs["phase"] != ph: broken.append(("secular:lastphase at cleanup %s, model %s" % (obs["phase"], ph), rec, line[:500]))
+        if ex == "done":
+            if (obs["imp"] is None) != (fin == "-"): broken.append(("secular:mps_improve called = %s, model %s" % (obs["imp"] is not None, fin != "-"), rec, line[:500]))
+            elif obs["imp"] is not None:
+                f = fin.split(":")
+                if f[1] != obs["imp"]["over"] or f[3] != ",".join(obs["imp"]["after"]):
+                    broken.append(("secular:after mps_improve %s/%s, model %s/%s" % (",".join(obs["imp"]["after"]), obs["imp"]["over"], f[3], f[1]), rec, line[:500]))
+        rec["exit"] = ex + ":" + why.split(":")[0]
     for (rec, line, obs), o in zip(dl, douts):
         t = o.split()
         if obs["bad"]: broken.append(("driver:" + obs["bad"][0], rec, line[:300]))
@@ -445,8 +623,10 @@ def trace_tie(ctx, recs):
         stats["improve:skipped" if t[3] == "1" else "improve:rounds=%s" % (t[2] if int(t[2]) < 6 else ">=6")] += 1
     if stats["radius-test:exact!=observed"]:
         broken.append(("modify:the radius test of modify.c differs from its exact value outside the 2^-40 band (%d times)" % stats["radius-test:exact!=observed"], None, ""))
-    return {"driver_traces_replayed": len(dl), "modify_calls_replayed": nm, "improve_calls_replayed": ni, "exit_histogram": dict(exits),
-            "mmodify_operands": dict(sameop), "trace_stats": dict(stats), "broken": len(broken)}, broken
+    return {"driver_traces_replayed": len(dl), "secular_driver_traces_replayed": len(gl), "secular_exit_histogram": dict(gexits),
+            "secular_stop_tests_replayed": len(sl), "modify_calls_replayed": nm, "improve_calls_replayed": ni, "exit_histogram": dict(exits),
+            "mmodify_operands": dict(sameop), "trace_stats": dict(stats), "broken": len(broken),
+            "broken_kinds": dict(collections.Counter(re.sub(r"[0-9,/]+", "#", b[0])[:70] for b in broken))}, broken
 
 
 SILENT_TEXT = ("Monomial;\nDegree=3;\nRational;\nReal;\nDense;\n\n"
@@ -458,7 +638,9 @@ SILENT_OPTS = ["-a", "u", "-G", "i", "-o", "100", "-W", "150", "-j", "1"]
 def run(ctx):
     ctx.prove()
     ctx.proof_violation_if_broken()
-    binary = ctx.compile_harness(["vf_solve.c", "c02_wrap.c"], "vf_solve_c02", mode="san", extra_ldflags=" ".join("-Wl,--wrap=" + f for f in WRAPPED))
+    secga = os.path.join(ctx.snap("san"), "src", "libmps", "secsolve", "secular-ga.c")
+    binary = ctx.compile_harness(["vf_solve.c", "c02_wrap.c", secga], "vf_solve_c02", mode="san", extra_cflags=INSTR,
+                                 extra_ldflags=" ".join("-Wl,--wrap=" + f for f in WRAPPED))
     stop_cov = stop_tie(ctx) if not ctx.replay else {}
     BUDGET[0] = ctx.pick(6e8, 3e10)
     env = ctx.san_env()
